@@ -1,4 +1,9 @@
 // Package vsync replaces "sync" in the instrumented packages: same API, every operation is a scheduling point.
+//
+// Mutual exclusion is enforced by the scheduler's lock model; the embedded real mutex is only operated so that the race
+// detector sees the program's own happens-before edges. A panic that unwinds while a lock is held (an explored
+// violation) leaves the real mutex of a package level variable locked for ever; because the scheduler has already
+// decided that the lock is free, a failed TryLock can only mean such a stale state and the real mutex is replaced.
 package vsync
 
 import (
@@ -18,12 +23,22 @@ type Mutex struct {
 	mu sync.Mutex
 }
 
+func (m *Mutex) real() *sync.Mutex { return &m.mu }
+
 func (m *Mutex) Lock() {
 	if vsched.Killing() {
 		return
 	}
+	active := vsched.Active()
 	vsched.Lock(uintptr(unsafe.Pointer(m)))
-	m.mu.Lock()
+	if !active {
+		m.real().Lock()
+		return
+	}
+	if !m.real().TryLock() {
+		m.mu = sync.Mutex{} // stale lock left behind by a panic in an earlier execution
+		m.mu.Lock()
+	}
 }
 
 func (m *Mutex) Unlock() {
@@ -31,7 +46,7 @@ func (m *Mutex) Unlock() {
 		return
 	}
 	vsched.Unlock(uintptr(unsafe.Pointer(m)))
-	m.mu.Unlock()
+	m.real().Unlock()
 }
 
 // RWMutex mirrors sync.RWMutex including writer preference (a pending writer blocks new readers).
@@ -39,14 +54,24 @@ type RWMutex struct {
 	mu sync.RWMutex
 }
 
+func (m *RWMutex) real() *sync.RWMutex { return &m.mu }
+
 func (m *RWMutex) Lock() {
 	if vsched.Killing() {
 		return
 	}
+	active := vsched.Active()
 	id := uintptr(unsafe.Pointer(m))
 	vsched.LockAnnounce(id)
 	vsched.Lock(id)
-	m.mu.Lock()
+	if !active {
+		m.real().Lock()
+		return
+	}
+	if !m.real().TryLock() {
+		m.mu = sync.RWMutex{}
+		m.mu.Lock()
+	}
 }
 
 func (m *RWMutex) Unlock() {
@@ -54,15 +79,23 @@ func (m *RWMutex) Unlock() {
 		return
 	}
 	vsched.Unlock(uintptr(unsafe.Pointer(m)))
-	m.mu.Unlock()
+	m.real().Unlock()
 }
 
 func (m *RWMutex) RLock() {
 	if vsched.Killing() {
 		return
 	}
+	active := vsched.Active()
 	vsched.RLock(uintptr(unsafe.Pointer(m)))
-	m.mu.RLock()
+	if !active {
+		m.real().RLock()
+		return
+	}
+	if !m.real().TryRLock() {
+		m.mu = sync.RWMutex{}
+		m.mu.RLock()
+	}
 }
 
 func (m *RWMutex) RUnlock() {
@@ -70,5 +103,5 @@ func (m *RWMutex) RUnlock() {
 		return
 	}
 	vsched.RUnlock(uintptr(unsafe.Pointer(m)))
-	m.mu.RUnlock()
+	m.real().RUnlock()
 }
